@@ -61,6 +61,10 @@ def sweep():
         out.append(("op " + name, mk))
     extra = {
         "Substring const 0,255": lambda: val(pt.Substring(arg_b(), pt.Int(0), pt.Int(255))), "Substring const 0,256": lambda: val(pt.Substring(arg_b(), pt.Int(0), pt.Int(256))),
+        "Substring const 200,300": lambda: val(pt.Substring(arg_b(), pt.Int(200), pt.Int(300))), "Substring const 255,256": lambda: val(pt.Substring(arg_b(), pt.Int(255), pt.Int(256))),
+        "Substring const 1,256": lambda: val(pt.Substring(arg_b(), pt.Int(1), pt.Int(256))), "Extract const 2,256": lambda: val(pt.Extract(arg_b(), pt.Int(2), pt.Int(256))),
+        "Extract const 2,255": lambda: val(pt.Extract(arg_b(), pt.Int(2), pt.Int(255))), "Extract const 256,2": lambda: val(pt.Extract(arg_b(), pt.Int(256), pt.Int(2))),
+        "Suffix const 255": lambda: val(pt.Suffix(arg_b(), pt.Int(255))),
         "Substring const 256,300": lambda: val(pt.Substring(arg_b(), pt.Int(256), pt.Int(300))), "Extract const 255,1": lambda: val(pt.Extract(arg_b(), pt.Int(255), pt.Int(1))),
         "Extract const 0,256": lambda: val(pt.Extract(arg_b(), pt.Int(0), pt.Int(256))), "Suffix const 256": lambda: val(pt.Suffix(arg_b(), pt.Int(256))),
         "Suffix const 3": lambda: val(pt.Suffix(arg_b(), pt.Int(3))), "Extract expr": lambda: val(pt.Extract(arg_b(), arg_u(), arg_u())),
